@@ -212,7 +212,12 @@ impl Story {
         // Report any errors that occured during evaluation.
         // This may either have been StoryExceptions that were thrown
         // and caught during evaluation, or directly added with AddError.
-        if self.get_state().has_error() || self.get_state().has_warning() {
+        // Not at the end of an unfinished time slice: the look-ahead may still be
+        // rolled back, to a snapshot that has these messages too or to code that
+        // raises them again, and they would be reported twice.
+        if !self.async_continue_active
+            && (self.get_state().has_error() || self.get_state().has_warning())
+        {
             match &self.on_error {
                 Some(on_err) => {
                     if self.get_state().has_error() {
